@@ -267,8 +267,11 @@ def check_repeated(kind, ix, indent, nprefix):
 SOUP_STARTS = ['if', 'elif', 'else:', 'endif', 'while', 'endwhile', 'for', 'endfor', 'function', 'async function', 'endfunction', 'break', 'continue',
                'return', 'jump', 'jumpif', 'include', 'lbl:', 'xx =', '', '', '#', '   ', 'in', 'x', "'", '"', '(', ')', '\\', '@', 'if x:', 'while y:',
                'for a in b:', 'function ff():', 'function ff(a, b...):', 'else', 'elif x:', "include 'a.bare'", 'include <b.bare>', 'jump lbl',
-               'jumpif (x) lbl', 'return x', 'endif', 'endwhile', 'endfor', 'endfunction']
-SOUP_TOKENS = ['x', 'yy', '1', '2.5', "'s'", '"d"', '+', '-', '*', '**', '&&', '||', '==', '<', '!', '(', ')', ',', ':', '\\', '#', "'", '"', '@', '$', '=', 'in',
+               'jumpif (x) lbl', 'return x', 'endif', 'endwhile', 'endfor', 'endfunction',
+               # include-shaped lines: empty and blank targets, both spellings in one line, missing closers
+               'include <>', "include ''", 'include ""', 'include < >', "include ' '", "include <a.bare> <>", "include <> 'b.bare'", 'include <', "include '", 'include <>>',
+               "include '' ''", 'include <a.bare><b.bare>', "include <it's.bare>", "include 'a\\'b.bare'"]
+SOUP_TOKENS = ['<>', "''", '<a>', "'b'", '<', '>', 'x', 'yy', '1', '2.5', "'s'", '"d"', '+', '-', '*', '**', '&&', '||', '==', '<', '!', '(', ')', ',', ':', '\\', '#', "'", '"', '@', '$', '=', 'in',
                'foo(', 'if(', '[a b]', '[', ']', '.', '...', 'true', 'null', '...):', '):', 'a,b',
                '\u00b2', '10\u00b2', '\u2460', '\u0663', '1\u00b3\u0661', '\u2167', '1.', '.5', '1e', '0x1F', '1_000']
 
